@@ -352,10 +352,13 @@ func parseAux(aux []byte) ([]sam.Aux, error) {
 		case j < 0:
 			switch t {
 			case 'Z', 'H':
-				j := bytes.IndexByte(aux[i:], 0)
+				// The terminator is looked for in the value, not in
+				// the tag and type bytes.
+				j := bytes.IndexByte(aux[i+3:], 0)
 				if j == -1 {
 					return nil, errors.New("bam: invalid zero terminated data: no zero")
 				}
+				j += 3
 				aa = append(aa, sam.Aux(aux[i:i+j:i+j]))
 				i += j + 1
 			case 'B':
